@@ -31,9 +31,9 @@ ASSUMPTIONS = ['rescale > 0 (a scaling factor); the ordering / precision clauses
                'tolerance 1e-9 relative plus a conditioning term 2e-15 x (1 + (mean/sd of control)^2)']
 EXHAUSTIVE = {'quick': False, 'thorough': False}
 MINIMA = {'quick': {'explicit_period_checks': 60, 'refits': 100, 'fits': 600, 'days_checked': 4000, 'summary_rows_checked': 3000, 'variants_checked': 600,
-                    'tbrfit_checked': 500, 'tbrfit_after_reuse': 200, 'tbrfit_after_buffer_recycle': 150, 'distinct_nontrivial': 500},
+                    'tbrfit_checked': 500, 'tbrfit_after_reuse': 200, 'tbrfit_after_buffer_recycle': 150, 'lagging_label_pairs': 80, 'bare_int_period_checks': 100, 'refit_same_frame_after_edit': 100, 'tbrfit_after_tests': 150, 'distinct_nontrivial': 500},
           'thorough': {'explicit_period_checks': 1000, 'refits': 1500, 'fits': 10000, 'days_checked': 60000, 'summary_rows_checked': 50000, 'variants_checked': 10000,
-                       'tbrfit_checked': 8000, 'tbrfit_after_reuse': 3000, 'tbrfit_after_buffer_recycle': 2500, 'distinct_nontrivial': 8000}}
+                       'tbrfit_checked': 8000, 'tbrfit_after_reuse': 3000, 'tbrfit_after_buffer_recycle': 2500, 'lagging_label_pairs': 1200, 'bare_int_period_checks': 1500, 'refit_same_frame_after_edit': 1500, 'tbrfit_after_tests': 2500, 'distinct_nontrivial': 8000}}
 N = {'quick': 720, 'thorough': 12000}
 
 
@@ -185,6 +185,14 @@ def run_case(spec):
 
   dist = model.causal_cumulative_distribution()
   check_posterior(dist, ref, 'default periods', len(x_an))
+  if r.random() < 0.3:
+    # a single period label may be given as a bare int; label 0 (the pre-period: a placebo analysis) is falsy
+    d0 = util.call(model.causal_cumulative_distribution, periods=0)
+    counters['bare_int_period_checks'] += 1
+    if not d0.ok:
+      add('periods', 'posterior-explicit-periods-raises:' + d0.exc_type, 'causal_cumulative_distribution(periods=0) raised %s' % d0.describe())
+    else:
+      check_posterior(d0.value, tbrref.Ref(x_pre, y_pre, x_pre, y_pre), 'periods=0 (pre-period, bare int)', len(x_pre))
   # explicit periods and time index
   if use_cool and exp['n_cool'] > 0 and r.random() < 0.5:
     d1 = model.causal_cumulative_distribution(periods=(1,))
@@ -310,6 +318,10 @@ def run_case(spec):
     util.call(diag.tbrfit, float(np.mean(x_an)) + 1.0, float(np.mean(y_an)))
     counters['tbrfit_after_reuse'] += 1
   diag.x = wx
+  if r.random() < 0.5:
+    # the usual order of use: the diagnostic tests are read before the fit is asked for
+    util.call(lambda: (diag.aatest, diag.tests_ok, diag.bbtest, diag.dwtest))
+    counters['tbrfit_after_tests'] += 1
   if recycle:
     wx[:] = wx[::-1] * 3.0 + 1.0
     wy[:] = 0.0
@@ -331,6 +343,47 @@ def run_case(spec):
     if not (util.close(est, r_est, rtol=rt * 10, atol=at_loc * 10) and util.close(scale, r_scale, rtol=max(rt * 100, 1e-8, rts))
             and util.close(sigma, r_sigma, rtol=max(rt * 100, 1e-8, rts))):
       add('tbrfit-closed-form', 'tbrfit-vs-closed-form', 'tbrfit %r vs independent closed form %r' % ((est, cihw, sigma, scale), (r_est, r_hw, r_sigma, r_scale)))
+  if r.random() < 0.25 and exp['n_ctl'] + exp['n_trt'] >= 3:
+    # one geo's period label lags by a day (its first test date is still labelled pre-period); whatever label the
+    # date ends up with, it may not depend on which row of that date comes first
+    st = before.copy()
+    geos_ct = sorted(set(st.loc[st['group'].isin([1, 2]), 'geo']))
+    lag = r.choice(geos_ct)
+    first_test = [d for d, p_ in zip(exp['dates'], exp['periods']) if p_ == 1][0]
+    st.loc[(st['geo'] == lag) & (st['date'] == first_test), 'period'] = 0
+    key = (st['geo'] == lag).astype(int)
+    fa = st.iloc[np.argsort(-key.to_numpy(), kind='stable')].reset_index(drop=True)      # lagging geo's rows first
+    fb = st.iloc[np.argsort(key.to_numpy(), kind='stable')].reset_index(drop=True)       # ... last
+    ma, mb = tbr.TBR(use_cooldown=use_cool), tbr.TBR(use_cooldown=use_cool)
+    ra = util.call(lambda: (ma.fit(fa, 'response'), ma.causal_cumulative_distribution())[1])
+    rb = util.call(lambda: (mb.fit(fb, 'response'), mb.causal_cumulative_distribution())[1])
+    counters['lagging_label_pairs'] += 1
+    if ra.ok != rb.ok:
+      add('layout', 'layout-dependence:lagging-label', 'row order decides whether the fit succeeds: %s vs %s' % (ra.describe(), rb.describe()))
+    elif ra.ok:
+      la, lb = np.atleast_1d(ra.value.kwds['loc']), np.atleast_1d(rb.value.kwds['loc'])
+      sa, sb = np.atleast_1d(ra.value.kwds['scale']), np.atleast_1d(rb.value.kwds['scale'])
+      if la.shape != lb.shape or not np.allclose(la, lb, rtol=rt, atol=at_loc, equal_nan=True) or not np.allclose(sa, sb, rtol=rts, equal_nan=True):
+        add('layout', 'layout-dependence:lagging-label',
+            'with one geo whose period label lags by a day, the posterior depends on the row order (%d vs %d analysed days, first loc %r vs %r)' % (
+                len(la), len(lb), la[:1], lb[:1]))
+  if fit_frame is frame and r.random() < 0.4:
+    # the caller corrects the SAME frame object in place (all responses restated) and fits the same model again
+    resp_dtype = frame['response'].dtype
+    frame['response'] = (frame['response'] * 3 + (7 if resp_dtype.kind in 'iu' else 7.5)).astype(resp_dtype)
+    fit2 = util.call(model.fit, frame, 'response')
+    counters['refit_same_frame_after_edit'] += 1
+    if not fit2.ok:
+      add('refit', 'tbr-refit-raises:' + fit2.exc_type, 'second fit of the edited frame raised %s' % fit2.describe())
+    else:
+      _, x_pre2, y_pre2 = totals(exp, frame, 'response', (0,))
+      _, x_an2, y_an2 = totals(exp, frame, 'response', analysed)
+      ref2 = tbrref.Ref(x_pre2, y_pre2, x_an2, y_an2)
+      if not (ref2.zero_resid or ref2.degenerate):
+        at_keep = at_loc
+        at_loc = rt * float(np.abs(y_an2).sum() + np.abs(y_pre2).mean() * len(y_an2))
+        check_posterior(model.causal_cumulative_distribution(), ref2, 'after in-place edit of the frame and re-fit', len(x_an2))
+        at_loc = at_keep
   return {'nontrivial': True, 'fp': util.fp([desc, kind]), 'classes': ['n_pre=3' if exp['n_pre'] == 3 else 'n_pre>3', kind, exp['shape']],
           'counters': dict(counters), 'violations': violations[:6],
           'sample': dict(desc, variant=kind, last_day_loc=float(ref.loc[-1]), last_day_scale=float(ref.scale[-1]))}
